@@ -49,7 +49,8 @@ void vs_advance(uint64_t ticks);
 size_t vs_steps(void);
 /* outcome reporting: on deadlock / step limit the scheduler prints "DEADLOCK ..." / "STEPLIMIT ..." with the
    state of every thread and the thread-id schedule so far, then calls the hook (if any) and exits with code 42/43 */
-void vs_on_stuck(void (*hook)(const char* why));
+void vs_on_stuck(int (*hook)(const char* why)); /* return non-zero to resume scheduling (after vs_wake_all) */
+int vs_wake_all(void);                    /* probe: deliver a (spurious) wake-up to every parked thread; returns how many */
 void vs_dump_schedule(void);              /* print "SCHEDULE t0 t1 ..." (thread ids, replayable with mode 1) */
 int vs_thread_finished(int tid);
 int vs_nthreads(void);
